@@ -123,9 +123,9 @@ def algebra(draw, ltype, dtype, tcap=1e3, maxk=4, scap=8.0):
 
 
 @st.composite
-def unit_quat(draw, dtype):
+def unit_quat(draw, dtype, kinds=("angle", "angle", "rand", "w0", "v0", "ident", "pi")):
     """valid unit quaternion (normalised in float64, then rounded to dtype) + regime"""
-    kind = draw(st.sampled_from(("angle", "angle", "rand", "w0", "v0", "ident", "pi")))
+    kind = draw(st.sampled_from(kinds))
     eps = EPS[dtype]
     d, _ = draw(direction3())
     sgn = draw(st.sampled_from((1.0, -1.0)))
@@ -180,8 +180,8 @@ def scale_val(draw, dtype, lo=-8.0, hi=8.0):
 
 
 @st.composite
-def group(draw, ltype, dtype, tcap=1e3, slo=-8.0, shi=8.0):
-    q, rq = draw(unit_quat(dtype))
+def group(draw, ltype, dtype, tcap=1e3, slo=-8.0, shi=8.0, qkinds=None):
+    q, rq = draw(unit_quat(dtype, qkinds) if qkinds else unit_quat(dtype))
     reg = {"q": rq}
     out = []
     if ltype in ("SE3", "Sim3"):
